@@ -16,10 +16,15 @@ import KonstVerif.Spec.ArrayStd
           answer: `[v;…]` | does-not-compile
     arr.safe.<mac> …                      same arguments as arr.<mac> with a reached early exit other than cont1:
                                           answer `noarray` unless an array is returned (then its value)
-    bld.hist <n> <ops>                    ops over p (push) c (clone, drop original) k (clone, drop clone),
-                                          last char b (build) | d (drop); `-` for none
+    bld.hist <n> <ops> [zst]              ops over p (push) c (clone, drop original) k (clone, drop clone)
+                                          0..9 (clone with an element `Clone` that panics on its j-th call, caught;
+                                          a clone that completes is dropped), last char b (build) | d (drop); `-` for none
           answer: per step `<op>=<ok|panic>,<len>,<t|f>,[ids]` joined by `;`, then `|b=[ids]`/`|b=panic`/`|d`,
                   then `|L=[id:m;id:d;…]` (ledger in event order; ids are creation numbers)
+          with the third argument `zst` the elements are ZERO-SIZED tokens without identity: the same model
+          run is observed as COUNTS — `[ids]` becomes the number of elements, `b=[ids]` becomes `b=arr:<n>`,
+          the ledger becomes `Z=<created>,<dropped>,<moved>`
+          elem ∈ zst | unit in arr.<mac>: zero-sized outputs, an array is shown as `[z;…;z]`
 -/
 namespace Driver.C11
 open Konst Konst.ArrayMacros Konst.Spec.ArrayStd Driver
@@ -79,7 +84,11 @@ def fromF (i : Nat) : Nat := 3 * i + 2
 
 def handleArr (mac : String) (args : List String) : Option (String × String) := do
   match args with
-  | [ctx, _elem, n, exit] =>
+  | [ctx, elem, n, exit] =>
+    let zst := elem = "zst" ∨ elem = "unit"
+    let showNats := fun (l : List Nat) => if zst then showList (l.map fun _ => "z") else showNats l
+    let showRes := fun (r : Res Nat) => match r with | .array l => showNats l | r => showRes r
+    let showVerdict := fun (v : Verdict Nat) => match v with | .value l => showNats l | v => showVerdict v
     let n ← n.toNat?
     let (kind, k) ← parseExit exit
     let xs := (List.range n).map (· + 10)
@@ -123,12 +132,18 @@ structure BTrace where
   steps : List String := []
   ledger : List String := []
 
-def stepStr (op : Char) (ok : Bool) (len : Nat) (full : Bool) (sl : List Nat) : String :=
-  s!"{op}={if ok then "ok" else "panic"},{len},{showBool full},{showNats sl}"
+def stepStr (zst : Bool) (op : Char) (ok : Bool) (len : Nat) (full : Bool) (sl : List Nat) : String :=
+  s!"{op}={if ok then "ok" else "panic"},{len},{showBool full},{if zst then toString sl.length else showNats sl}"
 
-def handleBld (args : List String) : Option (String × String) := do
-  match args with
-  | [n, ops] =>
+/-- the ledger column: events in order, or (zero-sized tokens) created / dropped / moved counts -/
+def ledgerStr (zst : Bool) (created : Nat) (led : List String) : String :=
+  if zst then
+    s!"Z={created},{(led.filter (·.endsWith ":d")).length},{(led.filter (·.endsWith ":m")).length}"
+  else "L=" ++ showList led
+
+def handleBldK (zst : Bool) (n ops : String) : Option (String × String) := do
+    let stepStr := stepStr zst
+    let showArr := fun (l : List Nat) => if zst then s!"arr:{l.length}" else showNats l
     let n ← n.toNat?
     let chars := if ops = "-" then [] else ops.toList
     let fresh : Nat → Nat → Nat := fun k _ => k
@@ -148,8 +163,12 @@ def handleBld (args : List String) : Option (String × String) := do
             let sl := (ArrayBuilder.asSlice res.1.1).getD []
             some (res.1, { steps := tr.steps ++ [stepStr ch true (ArrayBuilder.len res.1.1) (ArrayBuilder.isFull res.1.1) sl],
                            ledger := tr.ledger ++ dr.map fun i => s!"{i}:d" })
+          | .panicked dr =>
+            let sl := (ArrayBuilder.asSlice res.1.1).getD []
+            some (res.1, { steps := tr.steps ++ [stepStr ch false (ArrayBuilder.len res.1.1) (ArrayBuilder.isFull res.1.1) sl],
+                           ledger := tr.ledger ++ dr.map fun i => s!"{i}:d" })
         let fin := fun (f : String) (led : List String) =>
-          (if tr.steps.isEmpty then "-" else ";".intercalate tr.steps) ++ "|" ++ f ++ "|L=" ++ showList (tr.ledger ++ led)
+          (if tr.steps.isEmpty then "-" else ";".intercalate tr.steps) ++ "|" ++ f ++ "|" ++ ledgerStr zst st.2 (tr.ledger ++ led)
         match ch with
         | 'p' => (obsStep (.push st.2)).bind fun (s, t) => goM r s t
         | 'c' => (obsStep .clone).bind fun (s, t) => goM r s t
@@ -157,13 +176,15 @@ def handleBld (args : List String) : Option (String × String) := do
         | 'b' =>
           if r ≠ [] then none else
           match ArrayBuilder.build st.1 with
-          | .array l => some (fin ("b=" ++ showNats l) (l.map fun i => s!"{i}:m"))
+          | .array l => some (fin ("b=" ++ showArr l) (l.map fun i => s!"{i}:m"))
           | .panic => (ArrayBuilder.dropped st.1).map fun d => fin "b=panic" (d.map fun i => s!"{i}:d")
           | .ub => some "UB"
         | 'd' =>
           if r ≠ [] then none else
           (ArrayBuilder.dropped st.1).map fun d => fin "d" (d.map fun i => s!"{i}:d")
-        | _ => none
+        | _ =>
+          if ch.isDigit then (obsStep (.clonePanic (ch.toNat - '0'.toNat))).bind fun (s, t) => goM r s t
+          else none
     -- reference: bounded vector
     let rec goS : List Char → (List Nat × Nat) → BTrace → Option String
       | [], _, _ => none
@@ -178,8 +199,11 @@ def handleBld (args : List String) : Option (String × String) := do
           | .cloned dr =>
             some (res.1, { steps := tr.steps ++ [stepStr ch true res.1.1.length (res.1.1.length == n) res.1.1],
                            ledger := tr.ledger ++ dr.map fun i => s!"{i}:d" })
+          | .panicked dr =>
+            some (res.1, { steps := tr.steps ++ [stepStr ch false res.1.1.length (res.1.1.length == n) res.1.1],
+                           ledger := tr.ledger ++ dr.map fun i => s!"{i}:d" })
         let fin := fun (f : String) (led : List String) =>
-          (if tr.steps.isEmpty then "-" else ";".intercalate tr.steps) ++ "|" ++ f ++ "|L=" ++ showList (tr.ledger ++ led)
+          (if tr.steps.isEmpty then "-" else ";".intercalate tr.steps) ++ "|" ++ f ++ "|" ++ ledgerStr zst st.2 (tr.ledger ++ led)
         match ch with
         | 'p' => (obsStep (.push st.2)).bind fun (s, t) => goS r s t
         | 'c' => (obsStep .clone).bind fun (s, t) => goS r s t
@@ -187,14 +211,21 @@ def handleBld (args : List String) : Option (String × String) := do
         | 'b' =>
           if r ≠ [] then none else
           match bvBuild n st.1 with
-          | some l => some (fin ("b=" ++ showNats l) (l.map fun i => s!"{i}:m"))
+          | some l => some (fin ("b=" ++ showArr l) (l.map fun i => s!"{i}:m"))
           | none => some (fin "b=panic" (st.1.map fun i => s!"{i}:d"))
         | 'd' =>
           if r ≠ [] then none else some (fin "d" (st.1.map fun i => s!"{i}:d"))
-        | _ => none
+        | _ =>
+          if ch.isDigit then (obsStep (.clonePanic (ch.toNat - '0'.toNat))).bind fun (s, t) => goS r s t
+          else none
     let m ← goM chars (ArrayBuilder.new n, 0) {}
     let s ← goS chars ([], 0) {}
     some (m, s)
+
+def handleBld (args : List String) : Option (String × String) :=
+  match args with
+  | [n, ops] => handleBldK false n ops
+  | [n, ops, "zst"] => handleBldK true n ops
   | _ => none
 
 /-- `arr.safe.<mac> …`: the same invocation observed only as "an array came back" (then its value) or
